@@ -1,4 +1,7 @@
 use core::any::Any;
+#[cfg(unimock_verif)]
+use crate::verif::OnceCell;
+#[cfg(not(unimock_verif))]
 use once_cell::sync::OnceCell;
 
 use crate::alloc::Box;
@@ -58,11 +61,6 @@ impl ValueChain {
     fn push_node(&self, mut new_node: Node) -> &Node {
         let mut cell = &self.root;
         loop {
-            #[cfg(unimock_verif)]
-            crate::verif::yield_point(
-                crate::verif::Op::CellInsert,
-                cell as *const OnceCell<Node> as usize,
-            );
             match cell.try_insert(new_node) {
                 Ok(new_node) => {
                     return new_node;
@@ -82,7 +80,7 @@ impl ValueChain {
     pub fn verif_len(&self) -> usize {
         let mut len = 0;
         let mut cell = &self.root;
-        while let Some(node) = cell.get() {
+        while let Some(node) = cell.peek() {
             len += 1;
             cell = &node.next;
         }
